@@ -69,6 +69,11 @@ Pay(p, amt, accept) ==
      ELSE UNCHANGED <<hist, cur>>
   /\ UNCHANGED <<fin, flight, phase, reg, regAt, concl, paid, acct, now, nreg>>
 
+(* the same accepted payment, but the contexts the users passed to Update and to Accept end at the very moment the    *)
+(* new state is enabled at the respective client (a deadline that fires, a user who gives up): the state is agreed,   *)
+(* whatever the calls return                                                                                           *)
+PayCut(p, amt) == Pay(p, amt, TRUE)
+
 (* a final update by p that also pays amt (0 or 1), accepted *)
 Finalize(p, amt) ==
   /\ CanUpdate /\ amt \in 0..1 /\ Bal(p, Newest) >= amt
@@ -164,6 +169,7 @@ Settle(p) ==
 
 Next ==
   \/ \E p \in P, amt \in 1..2, acc \in BOOLEAN : Pay(p, amt, acc)
+  \/ \E p \in P, amt \in 1..1 : PayCut(p, amt)
   \/ \E p \in P, amt \in 0..1 : Finalize(p, amt)
   \/ \E p \in P, amt \in {-1, 1, 2} : Propose(p, amt)
   \/ AcceptInFlight \/ DeliverAcc
